@@ -15,6 +15,7 @@ returned start() calls, stop_async begins/ends and output-function calls off the
 -/
 import EdzedModel.Lifecycle
 import EdzedProofs.Lifecycle
+import EdzedProofs.LifecycleTie
 
 namespace Edzed.Lifecycle
 
@@ -361,3 +362,90 @@ example : ∃ r, runForever exSave = some r ∧ r.phase = .initFailed ∧ r.stor
   decide +kernel
 
 end Edzed.Lifecycle
+
+/-!
+### Tie by translation (tools/py2lean_lifecycle.py → Gen/TranslatedLifecycle.lean)
+
+`Gen.TrL.runTasks`, `stopSblocks`, `initSblocksAsync`, `runForever` are generated from the CURRENT
+source of `Circuit._run_tasks`, `_stop_sblocks`, `_init_sblocks_async`, `run_forever`: the order of
+the statements, the conditions, the loops, which exception classes are caught where, what is
+re-raised – `await X` being a call of the primitive X that returns, raises or is interrupted by a
+cancellation.  EdzedProofs/LifecycleTie.lean instantiates the primitives with the model's
+operations; the theorems say that the translated programs compute the model's steps.
+-/
+namespace Edzed.TrTie
+open Edzed Edzed.Lifecycle Edzed.LifecycleTie Edzed.Gen Edzed.Gen.TrD
+
+/-- `_run_tasks` IS the model's `awaitJobs` over the jobs sorted from the longest time-out: run on
+    freshly created tasks (`limit` = the instant at which the awaiting task is cancelled, if ever)
+    it ends at the same instant, every task has the fate the model gives it (returned / raised /
+    cancelled by its time-out with the remaining-time expression `timeout - get_time() + start_time`
+    / cancelled together with `_run_tasks`, the OTHER unfinished tasks included), and it re-raises the
+    CancelledError exactly when the model's loop is cancelled, otherwise returns -/
+theorem translated_lifecycle_run_tasks_is_model (limit : Option Nat) (js : List Job)
+    (hnd : (js.map (·.k)).Nodup) :
+    ∃ s' o, TrL.runTasks (rtPrims limit) js ⟨0, fun _ => none⟩ = (s', o) ∧
+      s'.now = (awaitJobs limit 0 (sortJobs js)).2.1 ∧
+      (sortJobs js).map (fateOf s') = (awaitJobs limit 0 (sortJobs js)).1 ∧
+      ((awaitJobs limit 0 (sortJobs js)).2.2 = true → o = .raise .cancelled) ∧
+      ((awaitJobs limit 0 (sortJobs js)).2.2 = false → o = .next ()) :=
+  runTasks_spec limit js hnd
+
+/-- `_stop_sblocks` IS the model's `stopSblocks`: the asynchronous set is `has stop_async ∧
+    stop_timeout > 0` among the AddonAsync blocks, the rest is the synchronous set; stop() of the
+    asynchronous set (errors suppressed), the yield, the stop_async tasks awaited by `_run_tasks`,
+    then stop() of the rest (errors suppressed) – same trace, same timer state, same duration, for
+    every order `en` in which the sets are iterated -/
+theorem translated_lifecycle_stop_sblocks_is_model (bs : List Blk) (failed inited started timers0 : List Nat)
+    (en : List Nat → List Nat) (hen : ∀ l, (en l).Perm l) :
+    TrL.stopSblocks (sbPrims bs failed inited en (en (setA bs started))) started
+        ⟨[], { timers := timers0, stopped := [], started := started }, 0⟩ =
+      (⟨(Lifecycle.stopSblocks bs failed inited started timers0 (en (setA bs started)) (en (setS bs started))).trace,
+        (Lifecycle.stopSblocks bs failed inited started timers0 (en (setA bs started)) (en (setS bs started))).st,
+        (Lifecycle.stopSblocks bs failed inited started timers0 (en (setA bs started)) (en (setS bs started))).dur⟩,
+       .next ()) :=
+  stopSblocks_spec bs failed inited started timers0 en hen
+
+/-- `_init_sblocks_async` hands exactly the model's `initJobs` (uninitialised AddonAsync blocks with
+    init_async and init_timeout > 0, in creation order) to `_run_tasks`, and nothing when there is none -/
+theorem translated_lifecycle_init_async_is_model (bs : List Blk) :
+    TrL.initSblocksAsync (iaPrims bs) {} =
+      (⟨if (initJobs bs).isEmpty then none else some (initJobs bs)⟩, .next ()) :=
+  initSblocksAsync_spec bs
+
+/-
+Full statement: the same without `c.blocks.isEmpty = false`.  The model has no "The circuit is
+empty" error (the harness never builds an empty circuit); `translated_lifecycle_empty_circuit_fails`
+below says what the translated program does then.
+-/
+/-- `run_forever` IS the model's `runForever`: with the try block left where the model's plan says
+    (start() failure, request at the yield after the start loop, cancellation during the async
+    initialisation, initialisation error, evaluation error, termination of the running circuit –
+    also by a control event inside the simulation task followed by an exception, which leaves a
+    cancellation pending), the translated skeleton collects `started_blocks`, sets `start_ok`, records
+    the first error, swallows the pending cancellation, saves the states iff `start_ok`, stops exactly
+    `started_blocks` and raises the recorded error: same events, started set, `start_ok`, error,
+    storage, pending timers and end time as the model -/
+theorem translated_lifecycle_run_forever_is_model_partial (c : Cfg) (r : Result) (h : runForever c = some r)
+    (hne : c.blocks.isEmpty = false) :
+    ∃ s' e, TrL.runForever (rfPrims c) (rfInit c) = (s', .raise e) ∧ r.error = some e ∧ s'.error = some e ∧
+      s'.trace = r.trace ∧ s'.started = r.started ∧ s'.startOk = r.startOk ∧ s'.storage = r.storage ∧
+      s'.timers = r.timers ∧ s'.endTime = r.endTime ∧ s'.pending = false :=
+  runForever_spec c r h hne
+
+/-- an empty circuit: nothing is started, the error is recorded and raised -/
+theorem translated_lifecycle_empty_circuit_fails (c : Cfg) (hb : c.cause.before = false)
+    (he : c.blocks.isEmpty = true) :
+    ∃ s', TrL.runForever (rfPrims c) (rfInit c) = (s', .raise .failure) ∧ s'.error = some .failure ∧
+      s'.started = [] ∧ s'.trace = [] := by
+  unfold TrL.runForever
+  simp [rfInit, hb, he, bind_apply, get_apply, pure_apply, raise_apply, tryExcept_apply]
+
+/-- a second `run_forever()` is refused before anything else happens (the model's `restart`) -/
+theorem translated_lifecycle_restart_refused (c : Cfg) (s : RfState) (hs : s.simtask = true) :
+    TrL.runForever (rfPrims c) s = (s, .raise .failure) := by
+  unfold TrL.runForever
+  simp [hs, bind_apply, get_apply, pure_apply, raise_apply]
+
+end Edzed.TrTie
+
